@@ -166,6 +166,61 @@ pub fn run_store_toks(args: &[&str]) -> String {
                 out.push_str(" | I ");
                 out.push_str(&instances_tok(&sent));
             }
+            "D" => {
+                let (svc, me) = match (t.name(), t.name()) {
+                    (Some(a), Some(b)) => (make_name(&a), make_name(&b)),
+                    _ => return "BADCASE".into(),
+                };
+                let d = match t.bytes() {
+                    Some(d) => d,
+                    None => return "BADCASE".into(),
+                };
+                use simple_dns::{header_buffer, PacketFlag};
+                let reply_tok = |store: &Store, p: Packet| -> String {
+                    match store.build_reply(p) {
+                        None => "NONE".into(),
+                        Some((_, _, _, _, _, bytes)) => match bytes {
+                            Ok(b) => match Packet::parse(&b) {
+                                Ok(q) => format!("REPLY {} {}", rrs_tok(&q.answers), rrs_tok(&q.additional_records)),
+                                Err(_) => "PARSEFAIL".into(),
+                            },
+                            Err(_) => "WRITEFAIL".into(),
+                        },
+                    }
+                };
+                // SimpleMdnsResponder::responder_loop
+                let responder = if header_buffer::has_flags(&d, PacketFlag::RESPONSE).unwrap_or(true) {
+                    "SKIP".to_string()
+                } else {
+                    match Packet::parse(&d) {
+                        Ok(p) => reply_tok(&store, p),
+                        Err(_) => "ERR".into(),
+                    }
+                };
+                // OneShotMdnsResolver::get_next_response: peeks on the whole 4096-byte receive buffer
+                let mut buf = vec![0u8; 4096.max(d.len())];
+                buf[..d.len()].copy_from_slice(&d);
+                let r = |x: simple_dns::Result<String>| x.unwrap_or_else(|_| "E".into());
+                let oneshot = format!(
+                    "{} {} {}",
+                    r(header_buffer::has_flags(&buf, PacketFlag::RESPONSE).map(|b| b01(b).to_string())),
+                    r(header_buffer::id(&buf).map(hx)),
+                    r(header_buffer::answers(&buf).map(hx))
+                );
+                // ServiceDiscovery::receive_packets_loop
+                let disc = match Packet::parse(&d) {
+                    Ok(p) => {
+                        if p.has_flags(PacketFlag::RESPONSE) {
+                            let sent = store.add_response(p, &svc, &me, true);
+                            format!("ING {}", instances_tok(&sent))
+                        } else {
+                            reply_tok(&store, p)
+                        }
+                    }
+                    Err(_) => "ERR".into(),
+                };
+                out.push_str(&format!(" | D {} / {} / {}", responder, oneshot, disc));
+            }
             "K" => {
                 let svc = match t.name() {
                     Some(a) => make_name(&a),
